@@ -35,6 +35,13 @@ def hand_histories():
     # frozen parameter is skipped by Module.zero_grad but zeroed by Optimizer.zero_grad; retain_grad on it raises
     H.append([L(0, [2]), L(1, [3], req=False), O("mul", [0, 1], [2]), B(2, [1]), {"k": "zero_t", "t": 1}, {"k": "zero_mod", "ps": [0, 1]},
               {"k": "zero_opt", "ps": [1]}, B(2, [1]), {"k": "retain", "t": 1}])
+    # calls that fail and are caught (seeded C04-r3m2 / C17-r3m1: marks left on the tensors by an aborted walk):
+    # the same graph afterwards, and a new graph reusing its interior nodes; a refused root that does not require grad
+    F = lambda r: {"k": "backward_fail", "root": r}
+    H.append([L(0, [2]), L(1, [3], req=False), O("mul", [0, 0], [2]), O("mul", [2, 1], [3]), F(3), B(3, [1]), F(3), F(1), B(3, [2]),
+              O("add", [2, 0], [4]), F(4), B(4, [1]), {"k": "zero_mod", "ps": [0]}, F(2), B(3, [1])])
+    H.append([L(0, [1, 2], shape=(2,)), L(1, [5]), O("sum", [0], [2]), O("mul", [2, 1], [3]), {"k": "retain", "t": 2}, F(3), F(3), B(3, [1]),
+              O("mul", [2, 2], [4]), B(4, [1]), F(2), B(2, [3])])
     # module trees whose registrations change after the tree has been looked at (seeded change C04-m2): a Parameter registered
     # late on a nested child must be reset by root.zero_grad() and seen by an optimizer built afterwards from root.parameters()
     M = lambda m: {"k": "mod_new", "m": m}
